@@ -158,6 +158,59 @@ def group_of(name):
     return 'zans' if name.startswith('zans.') else 'tab'
 
 
+# ---------------------------------------------------------------- storage of the arguments (wave 3)
+
+def arg_values(x):
+    return [x['s']] if 's' in x else list(x['a'])
+
+
+def pick_store(rng, x, plain=0.35):
+    """a storage for one readspec argument that can hold its values; the answer must not depend on it.
+    64-bit unsigned storage of a length-1 / scalar plate or fibre is kept for dedicated calls (feature 'uint64')."""
+    if x is None:
+        return None
+    vals = arg_values(x)
+    hi = max(vals) if vals else 0
+    if 's' in x:
+        if rng.random() < plain:
+            return 'int'
+        c = ['int', 'np:i4', 'np:i8', 'np:u4', '0d:i4', '0d:i8', '0d:>i4']
+        c += ['np:i2', '0d:i2'] if hi < 32768 else []
+        c += ['np:u2', '0d:>u2'] if hi < 65536 else []
+        c += ['np:u1'] if hi < 256 else []
+        return rng.choice(c)
+    if rng.random() < plain:
+        return rng.choice(['i4', 'i8', 'list'])
+    c = ['list', 'tuple', 'i4', 'i8', '>i4', '>i8', 'u4', '>u4', 'nc:i4', 'nc:>i4', 'nc:i8', 'ro:i4', 'ro:>i4']
+    c += ['u8', '>u8', 'nc:u8'] if len(vals) >= 2 else []
+    c += ['i2', '>i2', 'nc:>i2'] if hi < 32768 else []
+    c += ['u2', '>u2'] if hi < 65536 else []
+    c += ['u1'] if hi < 256 else []
+    return rng.choice(c)
+
+
+def pick_stores(rng, plate, mjd, fiber, fixed=None):
+    if fixed is not None:
+        return {'plate': fixed, 'mjd': fixed, 'fiber': fixed}
+    st = {'plate': pick_store(rng, plate), 'mjd': pick_store(rng, mjd), 'fiber': pick_store(rng, fiber)}
+    if mjd is not None and len(arg_values(mjd)) == 1 and rng.random() < 0.3:
+        st['mjd'] = rng.choice(['np:u8', '0d:u8']) if 's' in mjd else 'u8'    # harmless for the MJD (never used as an index)
+    return st
+
+
+IMG_STORES = ['i8', 'i4', 'f8', '>f8', '>i4', '>i8', 'f4', '>f4', 'i2?', 'nc:i8', 'nc:>f8', 'ncr:i4', 'F:i8', 'F:>f8', 'ro:i8', 'ro:>i4',
+              'u2+', 'u4+', '>u4+', 'u8+']
+SHIFT_STORES = ['int', 'np:i1', 'np:i2', 'np:i4', 'np:i8', '0d:i4', '0d:>i2', 'np:u1+', 'np:u2+', 'np:u4+', 'np:u8+', '0d:u1+', '0d:>u4+']
+
+
+def spec_append_py(a, b, shift):
+    """pure answer, used only to chain the inputs of an append history (verdicts come from Coq)"""
+    s = shift or 0
+    n1, n2 = (-s if s < 0 else 0), (s if s > 0 else 0)
+    w = max(len(a[0]) + n1, len(b[0]) + n2)
+    return [[0] * n1 + r + [0] * (w - n1 - len(r)) for r in a] + [[0] * n2 + r + [0] * (w - n2 - len(r)) for r in b]
+
+
 # ---------------------------------------------------------------- scenario generation
 
 def sarg(z):
@@ -287,7 +340,8 @@ def gen_scenario(rng, si, kind, root, thorough=False):
     cols = {'plugmap': ['FIBERID', 'CODE', 'OBJTYPE', 'MAG', 'RA'],
             'tsobj': ['OBJID', 'MODELFLUX'], 'zans': ['FIBERID', 'Z', 'CLASS']}
 
-    def add(tag, plate, mjd, fiber, reqs, znum=None, pass_runs=None, feature='plain', dtype=None, model=None, extra_kw=None):
+    def add(tag, plate, mjd, fiber, reqs, znum=None, pass_runs=None, feature='plain', dtype=None, model=None, extra_kw=None,
+            store=None):
         pr = pass_runs or rng.choice(['kw', 'env'])
         if mjd is None and fiber is not None and feature == 'plain' and \
                 any(v >= 10000 for v in ([plate['s']] if 's' in plate else plate['a'])):
@@ -298,7 +352,7 @@ def gen_scenario(rng, si, kind, root, thorough=False):
         if extra_kw:
             kw.update(extra_kw)
         call = {'plate': plate, 'mjd': mjd, 'fiber': fiber, 'kwargs': kw, 'env': env, 'columns': cols,
-                'dtype': dtype or rng.choice(['i4', 'i8', 'list']),
+                'store': store or pick_stores(rng, plate, mjd, fiber, dtype),
                 'max_rows': (len(reqs) if reqs else 12) + 2}   # rows beyond this cannot make a wrong answer right
         sc['calls'].append({'tag': tag, 'call': call, 'reqs': reqs, 'znum': znum, 'feature': feature,
                             'model': model or {'plate': plate, 'mjd': mjd, 'fiber': fiber}})
@@ -377,7 +431,7 @@ def gen_scenario(rng, si, kind, root, thorough=False):
         vec_call('vector-descending-keys', r3)
     mt = rng.choice(metas)
     f1 = rng.randint(1, mt['nfib'])
-    add('scalar', sarg(mt['plate']), sarg(mt['mjd']), sarg(f1), [(mt['plate'], mt['mjd'], f1)], dtype='i4')
+    add('scalar', sarg(mt['plate']), sarg(mt['mjd']), sarg(f1), [(mt['plate'], mt['mjd'], f1)])
     mt = rng.choice(metas)
     fs = [rng.randint(1, mt['nfib']) for _ in range(rng.randint(2, 6))]
     add('scalar-plate-vector-fiber', sarg(mt['plate']), sarg(mt['mjd']), aarg(fs), [(mt['plate'], mt['mjd'], f) for f in fs])
@@ -393,7 +447,7 @@ def gen_scenario(rng, si, kind, root, thorough=False):
     mt = rng.choice(metas)
     lm = by_plate_latest[mt['plate']]
     fb = rng.randint(1, meta_of[(mt['plate'], lm)]['nfib'])
-    add('mjd-omitted-scalar', sarg(mt['plate']), None, sarg(fb), [(mt['plate'], lm, fb)], pass_runs='env', dtype='i4')
+    add('mjd-omitted-scalar', sarg(mt['plate']), None, sarg(fb), [(mt['plate'], lm, fb)], pass_runs='env')
     if has_zall:
         r5 = cover_reqs()
         while len(r5) < 2:
@@ -402,6 +456,26 @@ def gen_scenario(rng, si, kind, root, thorough=False):
         vec_call('znum=%s' % ('1' if zn == 1 else ('nper' if zn == nper else 'mid')), r5, znum=zn, feature='znum')
         if zn != 1:
             vec_call('znum=1', rand_reqs(rng.randint(2, 6)), znum=1, feature='znum')
+    # 64-bit unsigned scalars / length-1 arrays (what bit arithmetic on specObjIDs yields): int32 + uint64 promotes to float64
+    mt = rng.choice(metas)
+    fb = rng.randint(1, mt['nfib'])
+    u8s = rng.choice(['np:u8', '0d:u8'])
+    add('uint64-scalars', sarg(mt['plate']), sarg(mt['mjd']), sarg(fb), [(mt['plate'], mt['mjd'], fb)], feature='uint64',
+        store={'plate': u8s, 'mjd': u8s, 'fiber': u8s})
+    if len(metas) >= 2:
+        ms = [rng.choice(metas) for _ in range(rng.randint(2, 4))]
+        fb = rng.randint(1, min(x['nfib'] for x in ms))
+        add('uint64-len1-fiber', aarg([x['plate'] for x in ms]), aarg([x['mjd'] for x in ms]), aarg([fb]),
+            [(x['plate'], x['mjd'], fb) for x in ms], feature='uint64', store={'plate': 'u8', 'mjd': 'u8', 'fiber': 'u8'})
+    mt = rng.choice(metas)
+    lm = by_plate_latest[mt['plate']]
+    fs = [rng.randint(1, meta_of[(mt['plate'], lm)]['nfib']) for _ in range(rng.randint(2, 4))]
+    if mt['plate'] < 10000:
+        add('uint64-len1-plate-mjd-omitted', aarg([mt['plate']]), None, aarg(fs), [(mt['plate'], lm, f) for f in fs],
+            pass_runs='env', feature='uint64', store={'plate': 'u8', 'mjd': None, 'fiber': 'u8'})
+    # the first call once more at the end: same answer, earlier results untouched
+    first = sc['calls'][0]
+    sc['calls'].append({**first, 'tag': 'repeat-first-call', 'call': dict(first['call'])})
     # error cases
     t = rng.random()
     if t < 0.3:
@@ -500,7 +574,7 @@ def gen_history(rng, si, root):
         else:
             env[redux] = t
         call = {'plate': plate, 'mjd': mjd, 'fiber': fiber, 'kwargs': kw, 'env': env, 'columns': cols,
-                'dtype': rng.choice(['i4', 'i8', 'list']), 'max_rows': len(reqs) + 2}
+                'store': pick_stores(rng, plate, mjd, fiber), 'max_rows': len(reqs) + 2}
         sc['calls'].append({'tag': 'history-%s-%s' % (sc['sub'], tag), 'call': call, 'reqs': reqs, 'znum': None,
                             'feature': 'history', 'model': {'plate': plate, 'mjd': mjd, 'fiber': fiber}})
         group['seq'].append((k, len(sc['calls']) - 1, build_first))
@@ -551,6 +625,79 @@ def scenario_plan(ctx):
 
 # ---------------------------------------------------------------- spec_append cases
 
+def resolve_store(rng, st, rows_list):
+    """'x+' needs non-negative values, 'x?' needs values that fit 16 bits -> (store, make_nonneg)"""
+    if st.endswith('?'):
+        ok = all(-32768 <= v < 32768 for rows in rows_list for r in rows for v in r)
+        return (st[:-1] if ok else 'i4'), False
+    if st.endswith('+'):
+        return st[:-1], True
+    return st, False
+
+
+def with_stores(rng, c):
+    """random storages for spec1, spec2 and pixshift; unsigned storage makes the data of both blocks non-negative"""
+    if rng.random() < 0.3:
+        c.update({'a_store': rng.choice(['i8', 'i4', 'f8']), 'b_store': None, 'shift_store': 'int'})
+        c['b_store'] = c['a_store']
+        return c
+    sa, na = resolve_store(rng, rng.choice(IMG_STORES), [c['a'], c['b']])
+    sb, nb = (sa, na) if rng.random() < 0.6 else resolve_store(rng, rng.choice(IMG_STORES), [c['a'], c['b']])
+    if na or nb:
+        c['b'] = [[abs(v) + 500 for v in r] for r in c['b']]
+        c['a'] = [[abs(v) for v in r] for r in c['a']]
+        if any(v >= 65536 for rows in (c['a'], c['b']) for r in rows for v in r):
+            sa = sa.replace('u2', 'u4')
+            sb = sb.replace('u2', 'u4')
+    ss = rng.choice(SHIFT_STORES)
+    if ss.endswith('+'):
+        ss = ss[:-1] if (c['shift'] is not None and c['shift'] >= 0) else 'int'
+    c.update({'a_store': sa, 'b_store': sb, 'shift_store': ss if c['shift'] is not None else 'int'})
+    return c
+
+
+def gen_append_histories(ctx):
+    """repeated spec_append on the same caller-owned arrays in one process: the same pair with different shifts, results
+    fed back as inputs (the way readspec accumulates), earlier results re-used later"""
+    rng = ctx.rng
+    hs = []
+    for k in range(ctx.n(40, 400)):
+        pool, pure = {}, {}
+        unsigned = rng.random() < 0.25
+        for j in range(rng.randint(2, 3)):
+            n, w = rng.randint(1, 3), rng.randint(1, 5)
+            base = (j + 1) * 1000 + rng.randint(1, 9) * 10000
+            rows = [[(base + 100 * i + q + 1) * (1 if (unsigned or j % 2 == 0) else -1) for q in range(w)] for i in range(n)]
+            st, _ = resolve_store(rng, rng.choice([x for x in IMG_STORES if unsigned or not x.endswith('+')]), [rows])
+            if st.startswith('u2') or st == 'i2':
+                st = 'u4' if unsigned else 'i4'
+            pool['x%d' % j] = {'rows': rows, 'store': st}
+            pure['x%d' % j] = rows
+        ops = []
+        names = list(pool)
+        for t in range(rng.randint(4, 8)):
+            u = rng.random()
+            if t > 0 and u < 0.35:
+                a, b = ops[-1]['out'], rng.choice(names)           # accumulate: previous result first
+            elif t > 0 and u < 0.5:
+                a, b = ops[-1]['a'], ops[-1]['b']                    # the same pair again, other shift
+            else:
+                a, b = rng.choice(names), rng.choice(names)          # may be the same array twice
+            v = rng.random()
+            shift = None if v < 0.15 else (0 if v < 0.3 else rng.randint(-4, 4))
+            ss = rng.choice(SHIFT_STORES)
+            if ss.endswith('+'):
+                ss = ss[:-1] if (shift is not None and shift >= 0) else 'int'
+            if len(pure[a]) + len(pure[b]) > 12:
+                a, b = names[0], names[1 % len(names)]
+            out = 'r%d' % t
+            ops.append({'a': a, 'b': b, 'shift': shift, 'shift_store': ss if shift is not None else 'int', 'kwshift': rng.random() < 0.5, 'out': out})
+            pure[out] = spec_append_py(pure[a], pure[b], shift)
+            names.append(out)
+        hs.append({'pool': pool, 'ops': ops, 'pure': pure})
+    return hs
+
+
 def gen_append(ctx):
     rng = ctx.rng
     cases = []
@@ -566,7 +713,7 @@ def gen_append(ctx):
         b = [[-(base + 100 * i + j + 1) for j in range(w2)] for i in range(n2)]
         if rng.random() < 0.1:   # genuine zeros inside the data must survive too
             a[rng.randrange(n1)][rng.randrange(w1)] = 0
-        cases.append({'a': a, 'b': b, 'shift': shift, 'kwshift': rng.random() < 0.5, 'dtype': rng.choice(['i8', 'i4', 'f8'])})
+        cases.append(with_stores(rng, {'a': a, 'b': b, 'shift': shift, 'kwshift': rng.random() < 0.5}))
     # bounded-exhaustive small family: all shapes up to 2x3 and shifts -3..3
     for n1 in (1, 2):
         for n2 in (1, 2):
@@ -575,7 +722,7 @@ def gen_append(ctx):
                     for s in range(-3, 4):
                         a = [[10 * (i + 1) + j + 1 for j in range(w1)] for i in range(n1)]
                         b = [[-(10 * (i + 1) + j + 1) for j in range(w2)] for i in range(n2)]
-                        cases.append({'a': a, 'b': b, 'shift': s, 'kwshift': False, 'dtype': 'i8'})
+                        cases.append({'a': a, 'b': b, 'shift': s, 'kwshift': False, 'a_store': 'i8', 'b_store': 'i8', 'shift_store': 'int'})
     return cases
 
 
@@ -707,6 +854,7 @@ def correspond(ctx, proof_ok=True):
         groups.append(grp)
     app_cases = gen_append(ctx)
     sp_cases = gen_specpath(ctx)
+    app_hist = gen_append_histories(ctx)
 
     def with_arrays(t):
         tt = dict(t)
@@ -741,6 +889,7 @@ def correspond(ctx, proof_ok=True):
     app_chunks = [app_cases[i::2] for i in range(2)]
     payloads = [{'jobs': b} for b in batches] + [{'jobs': [{'kind': 'append', 'cases': ch}]} for ch in app_chunks]
     payloads[-1]['jobs'].append({'kind': 'specpath', 'cases': sp_cases})
+    payloads[-2]['jobs'].append({'kind': 'append_history', 'histories': [{'pool': h['pool'], 'ops': h['ops']} for h in app_hist]})
     outs = C.run_impl_parallel('c16_impl.py', payloads)
     ctx.coverage['pydl_file'] = outs[0]['pydl_file']
     results = [[None] * len(sc['calls']) for sc in scenarios]
@@ -748,6 +897,7 @@ def correspond(ctx, proof_ok=True):
         for (k, j), r in zip(jobs[i][1], outs[b]['results'][pos]):
             results[k][j] = r
     sp_results = outs[-1]['results'][1]
+    hist_results = outs[-2]['results'][1]
     app_results = [None] * len(app_cases)
     for ci, ch in enumerate(app_chunks):
         for k, r in enumerate(outs[nb + ci]['results'][0]):
@@ -791,6 +941,13 @@ def correspond(ctx, proof_ok=True):
     cc = C.CoqCases(ctx.work, HEADER, 'run_cases', shard=120)
     app_terms = [append_term(c, r) for c, r in zip(app_cases, app_results)]
     app_verdicts = cc.run(app_terms, tag='append')
+    # append histories: every operation against the model's pure answer for the values its inputs should hold
+    hist_ops = [(hi, oi) for hi, h in enumerate(app_hist) for oi in range(len(h['ops']))]
+    hist_terms = []
+    for hi, oi in hist_ops:
+        h, op, r = app_hist[hi], app_hist[hi]['ops'][oi], hist_results[hi][oi]
+        hist_terms.append(append_term({'a': h['pure'][op['a']], 'b': h['pure'][op['b']], 'shift': op['shift']}, r))
+    hist_verdicts = cc.run(hist_terms, tag='apphist')
     sp_terms = [specpath_term(c, r) for c, r in zip(sp_cases, sp_results)]
     sp_verdicts = cc.run(sp_terms, tag='specpath')
     ctx.coverage['coq_eval_s'] = round(cc.coq_seconds + max(e[1] for e in evals), 1)
@@ -828,13 +985,35 @@ def correspond(ctx, proof_ok=True):
                     problems.append('table groups %s, expected %s' % (res.get('groups'), want))
                 if res.get('bad'):
                     problems.append('unreadable outputs: %s' % res['bad'])
+            hazards = []
+            if res.get('inputs_untouched') is False:
+                hazards.append('inputs-modified')
+            if res.get('aliases_input'):
+                hazards.append('result-aliases-input')
+            if res.get('aliases_earlier'):
+                hazards.append('result-aliases-earlier-result')
+            if res.get('earlier_changed'):
+                hazards.append('earlier-result-changed')
+            if hazards:
+                hsig = 'C16:readspec:%s:%s:%s:property' % ('topdir' if sc['kind'] == 'topdir' else 'std', cm['feature'], '+'.join(hazards))
+                if hsig not in seen:
+                    seen.add(hsig)
+                    spec_vio += 1
+                    ctx.violation(hsig, 'readspec does not leave the caller\'s arrays / earlier results alone: %s on %s' % (', '.join(hazards), cm['tag']),
+                                  {'kind': 'failing-input', 'what': 'readspec-hazard', 'call': cm['call'], 'requests': cm['reqs'], 'hazards': hazards,
+                                   'detail': {kk: res.get(kk) for kk in ('inputs_untouched', 'aliases_input', 'aliases_earlier', 'earlier_changed')},
+                                   'scenario': {'kind': sc['kind'], 'si': sc['si'], 'run2d': sc['run2d'], 'run1d': sc['run1d'], 'metas': sc['metas'],
+                                                'trees': sc['trees']},
+                                   'note': 'the arguments are rebuilt in the stated storage (call.store), snapshotted, and compared bit for bit after '
+                                           'the call; result arrays are tested with np.shares_memory against the arguments and against the results '
+                                           'of the two preceding calls of the same process, whose contents are compared with copies taken then'}, True)
             if v == 0 and not problems:
                 continue
             if v & 1:
                 model_dis += 1
             if v & 2:
                 spec_vio += 1
-            loc = 'topdir' if sc['kind'] == 'topdir' else 'std'
+            loc = 'topdir' if (sc['kind'] == 'topdir' and cm['feature'] != 'uint64') else 'std'
             sig = 'C16:readspec:%s:%s:%s:%s' % (loc, cm['feature'], outcome, 'property' if v & 2 else 'model')
             if sig in seen:
                 continue
@@ -897,6 +1076,8 @@ def correspond(ctx, proof_ok=True):
             extra.append('dtype changed')
         if 'ok' in r and not r['inputs_untouched']:
             extra.append('inputs modified')
+        if 'ok' in r and r.get('aliases_input'):
+            extra.append('result aliases an input')
         if v == 0 and not extra:
             continue
         app_bad += 1
@@ -904,13 +1085,18 @@ def correspond(ctx, proof_ok=True):
         sclass = 'none' if s is None else ('zero' if s == 0 else ('neg' if s < 0 else 'pos'))
         wclass = 'eq' if len(c['a'][0]) == len(c['b'][0]) else ('a-wider' if len(c['a'][0]) > len(c['b'][0]) else 'b-wider')
         out = ('impl=' + r['err']) if 'err' in r else 'diff'
-        sig = 'C16:spec_append:shift=%s:%s:%s:%s' % (sclass, wclass, out, 'property' if v & 2 else ('model' if v else 'extra'))
+        ss = c.get('shift_store') or 'int'
+        skind = 'python' if ss == 'int' else ('unsigned' if ':u' in ss or ':>u' in ss else 'signed')
+        sig = 'C16:spec_append:shift=%s(%s):%s:%s:%s' % (sclass, skind, wclass, out, 'property' if v & 2 else ('model' if v else 'hazard'))
         if sig in seen:
             continue
         seen.add(sig)
-        rep = {'kind': 'failing-input' if v & 2 else 'broken-correspondence', 'what': 'spec_append', 'case': c, 'impl_result': r,
+        rep = {'kind': 'failing-input' if (v & 2 or extra) else 'broken-correspondence', 'what': 'spec_append', 'case': c, 'impl_result': r,
                'coq_case': term, 'verdict': v, 'extra': extra}
-        if v & 2:
+        if v == 0 and extra:
+            spec_vio += 1
+            ctx.violation(sig, 'spec_append: %s (storages %s / %s)' % (', '.join(extra), c.get('a_store'), c.get('b_store')), rep, True)
+        elif v & 2:
             spec_vio += 1
             ctx.violation(sig, 'spec_append output differs from "rows of a then rows of b at their offsets, zeros elsewhere"', rep, True)
         else:
@@ -918,8 +1104,39 @@ def correspond(ctx, proof_ok=True):
             rep['item'] = 'C16.Model.spec_append'
             ctx.violation(sig, 'spec_append: %s' % (', '.join(extra) or 'model and implementation disagree'), rep, False)
 
+    # ---- append histories: a wrong or history-dependent answer is a failing input (history prefix, operation)
+    for (hi, oi), v, term in zip(hist_ops, hist_verdicts, hist_terms):
+        h, op, r = app_hist[hi], app_hist[hi]['ops'][oi], hist_results[hi][oi]
+        extra = []
+        if 'ok' in r:
+            if not r['same_dtype']:
+                extra.append('dtype changed')
+            if r['pool_changed']:
+                extra.append('caller-owned arrays or earlier results modified: %s' % r['pool_changed'])
+            if r['aliases_pool']:
+                extra.append('result shares memory with %s' % r['aliases_pool'])
+        if r.get('err') == 'Skipped' or (v == 0 and not extra):
+            continue
+        s_ = op['shift']
+        sclass = 'none' if s_ is None else ('zero' if s_ == 0 else ('neg' if s_ < 0 else 'pos'))
+        out = ('impl=' + r['err']) if 'err' in r else ('diff' if v else 'hazard')
+        sig = 'C16:spec_append:history:shift=%s:%s:%s' % (sclass, out, 'property' if (v & 2 or extra) else 'model')
+        if sig in seen:
+            continue
+        seen.add(sig)
+        spec_vio += 1 if (v & 2 or extra) else 0
+        model_dis += 1 if v & 1 else 0
+        ctx.violation(sig, 'spec_append in a sequence of calls on the same arrays: %s' % (', '.join(extra) or 'answer differs from the pure answer'),
+                      {'kind': 'failing-input' if (v & 2 or extra) else 'broken-correspondence', 'what': 'spec_append-history',
+                       'history': {'pool': h['pool'], 'ops': h['ops'][:oi + 1]}, 'expected_inputs': {'a': h['pure'][op['a']], 'b': h['pure'][op['b']]},
+                       'impl_result': r, 'coq_case': term[:3000], 'verdict': v, 'extra': extra,
+                       'note': 'the operations are run one after the other in ONE process on the same pool of arrays; the last one is the '
+                               'failing operation; its answer must be spec_append of the values its inputs held when they were created'},
+                      bool(v & 2 or extra))
+
     ctx.coverage.update({
-        'evaluations': n_calls + len(app_cases) + len(sp_cases),
+        'evaluations': n_calls + len(app_cases) + len(sp_cases) + len(hist_ops),
+        'spec_append_history_ops': len(hist_ops), 'spec_append_histories': len(app_hist),
         'spec_path_calls': len(sp_cases), 'opened_file_lists_compared': n_files,
         'distinct_nontrivial': len(set(t for e in evals for t in e[2])) + len(set(app_terms)) + len(set(sp_terms)),
         'rule': 'one evaluation = one readspec call on a freshly written synthetic tree (every returned image, loglam and table '
@@ -942,7 +1159,16 @@ def replay(ctx, rep):
         print('impl   :', out['results'][0][0])
         print('before :', rep.get('impl_result'))
         return 0
-    if rep.get('what') != 'readspec':
+    if rep.get('what') == 'spec_append-history':
+        out = C.run_impl('c16_impl.py', {'jobs': [{'kind': 'append_history', 'histories': [rep['history']]}]})
+        for nm, sp in rep['history']['pool'].items():
+            print('array  : %s %s %s' % (nm, sp['store'], sp['rows']))
+        for op, r in zip(rep['history']['ops'], out['results'][0][0]):
+            print('op     : %s = spec_append(%s, %s, %s as %s) -> %s' % (op['out'], op['a'], op['b'], op['shift'], op['shift_store'], r))
+        print('expected inputs of the last operation:', rep['expected_inputs'])
+        print('pure answer:', spec_append_py(rep['expected_inputs']['a'], rep['expected_inputs']['b'], rep['history']['ops'][-1]['shift']))
+        return 0
+    if rep.get('what') not in ('readspec', 'readspec-hazard'):
         print('replay file has no input (kind=%s, item=%s)' % (rep.get('kind'), rep.get('item')))
         return 2
     if rep.get('history'):
